@@ -3201,6 +3201,7 @@ func lemmaForwardSession(raw *rawEnvelope) (e *Session, e3 *Session, accepted bo
 //@   oncall [C04] (*encoding/json.Decoder).Decode[*rawEnvelope] : true
 //@   ensures [C16] @bounded t.limitedReader.consumed - old(t.limitedReader.consumed) <= old(t.limitedReader.N) && old(t.limitedReader.N) <= t.ReadLimit
 //@   ensures [C16] @rearmed result1 == nil ==> t.limitedReader.N == t.ReadLimit
+//@   checks [C16] @rearmedafterdecode ncalls("(*encoding/json.Decoder).Decode[*rawEnvelope]") == 1 && nerr("(*encoding/json.Decoder).Decode[*rawEnvelope]") == 0 ==> t.limitedReader.N == t.ReadLimit  ## the budget is per envelope READ, not per envelope accepted: a well-formed JSON value that is then refused (unknown kind, missing type) must not eat into the budget of the envelopes after it
 //@   ensures [C16] @neverenlarged result1 != nil ==> t.limitedReader.N <= old(t.limitedReader.N) || t.limitedReader.N == t.ReadLimit
 //@   ensures [C12] @kinds result1 == nil ==> result0 != nil && !payloadnil(result0) && isKind(result0)
 //@   ensures [C09,C12] @stillopen result1 == nil ==> t.conn != nil && !t.eof  ## Transport model: a successful Receive leaves the transport connected
@@ -3259,11 +3260,12 @@ func lemmaForwardSession(raw *rawEnvelope) (e *Session, e3 *Session, accepted bo
 //@   ensures (result == nil) == (l.listener != nil)
 
 //@ func (*tcpTransportListener).Accept :: (l, ctx) (result0, result1)
-//@   props C01 C04 C09 C12 C16
+//@   props C01 C04 C09 C12 C16 C17
 //@   requires l != nil && ctx != nil && l.ReadLimit >= 0
 //@   modifies nothing
 //@   ensures [C16] @armed result1 == nil ==> istype(result0, *tcpTransport) && tcpNew(result0.(*tcpTransport), l.ReadLimit)
 //@   ensures [C09] @serverside result1 == nil ==> result0.(*tcpTransport).server
+//@   ensures [C17] @ownconnection result1 == nil ==> fresh(result0.(*tcpTransport))  ## every accepted connection gets a transport object of its own
 //@   ensures result1 != nil ==> result0 == nil
 
 //@ func (*tcpTransportListener).serve :: (l, listener) ()
@@ -3409,6 +3411,26 @@ func lemmaForwardSession(raw *rawEnvelope) (e *Session, e3 *Session, accepted bo
 //@   ensures [C01] @kinds result1 == nil ==> result0 != nil && !payloadnil(result0) && isKind(result0)
 //@   ensures [C04] @notopen t.conn == nil ==> result1 != nil
 //@   ensures [C04] @stillopen result1 == nil ==> t.conn != nil
+
+//@ struct websocketTransportListener
+//@   chaninv connChan : v != nil
+
+//@ func (*websocketTransportListener).ensureStarted :: (l) (result)
+//@   props C17
+//@   requires l != nil
+//@   modifies nothing
+//@   ensures (result == nil) == (l.srv != nil)
+//@ func (*websocketTransportListener).tls :: (l) (result)
+//@   props C17
+//@   requires l != nil
+//@   modifies nothing
+//@   ensures result == (l.TLSConfig != nil)
+//@ func (*websocketTransportListener).Accept :: (l, ctx) (result0, result1)
+//@   props C04 C17
+//@   requires l != nil && ctx != nil
+//@   modifies nothing
+//@   ensures [C17] @ownconnection result1 == nil ==> istype(result0, *websocketTransport) && fresh(result0.(*websocketTransport))  ## every accepted connection gets a transport object of its own: replies written through a session's Sender go to that session's socket, not to the one accepted last
+//@   ensures result1 != nil ==> result0 == nil
 
 //@ func (*websocketTransport).Close :: (t) (result)
 //@   props C14
